@@ -53,6 +53,11 @@ func NewVerifier(message string) (verify.RequestVerifier, error) {
 // ModifyRequest adds an error message containing the message field in the verifier to the verifier errors.
 // This means that any time a request hits the verifier it's treated as an error.
 func (v *verifier) ModifyRequest(req *http.Request) error {
+	// skip requests to API
+	if ctx := martian.NewContext(req); ctx != nil && ctx.IsAPIRequest() {
+		return nil
+	}
+
 	err := fmt.Errorf("request(%v) verification error: %s", req.URL, v.message)
 	v.merr.Add(err)
 	return nil
